@@ -10,11 +10,97 @@ import pyvc.ext.marker_cache  # noqa: F401  (records MCTree / MCLog, spec functi
 
 M = 'cell_type_mapper.type_assignment.marker_cache_v2.'
 
+A_GRP = ("A-GRP: no level name of the taxonomy contains '/', so that the group key "
+         "'{level}/{node}' determines level and node")
+
 VALID_TREE = [
     "wf_mctree(taxonomy_tree)",
     # A-GRP: '{level}/{node}' is unambiguous (no level name contains '/'); see the report
     "grp_unambiguous(taxonomy_tree)",
 ]
+
+
+# ---- native generators: real TaxonomyTree objects, small gene universe, boundary cases -----------
+GENES = ['g0', 'g1', 'g2', 'g3', 'g4', 'g5']
+
+
+def make_tree(shape, level_names=None):
+    """shape: nested lists describing the children counts per level, e.g. [[2, 1], [1]] = root with
+    two top-level nodes; the first has two children with 2 and 1 leaves ...  Simplified here to a
+    list of per-level parent assignments: shape[k][i] = index of the parent (at level k-1) of the
+    i-th node of level k (level 0 nodes hang off the root)."""
+    from cell_type_mapper.taxonomy.taxonomy_tree import TaxonomyTree
+    n_levels = len(shape)
+    level_names = level_names or ['class', 'subclass', 'cluster', 'leaf'][:n_levels]
+    if n_levels == 1:
+        level_names = [level_names[-1]] if len(level_names) == 1 else ['cluster']
+    names = [[f"{level_names[k][0]}{k}_{i}" for i in range(len(shape[k]))] for k in range(n_levels)]
+    data = {'hierarchy': list(level_names)}
+    for k in range(n_levels - 1):
+        data[level_names[k]] = {names[k][i]: [names[k + 1][j] for j in range(len(shape[k + 1]))
+                                              if shape[k + 1][j] == i]
+                                for i in range(len(shape[k]))}
+    data[level_names[-1]] = {names[-1][i]: [i] for i in range(len(shape[-1]))}
+    return TaxonomyTree(data=data)
+
+
+def random_shape(rng, n_levels, max_width=3):
+    """a valid shape: every node of level k < last has at least one child"""
+    shape = [[0] * rng.randint(1, max_width)]
+    for k in range(1, n_levels):
+        n_par = len(shape[-1])
+        kids = list(range(n_par)) + [rng.randrange(n_par) for _ in range(rng.randint(0, max_width))]
+        kids.sort()
+        shape.append(kids)
+    return shape
+
+
+def random_table(rng, tree, genes, p_missing=0.25):
+    table = {}
+    for parent in tree.all_parents:
+        if rng.random() < p_missing:
+            continue
+        k = 'None' if parent is None else f'{parent[0]}/{parent[1]}'
+        table[k] = [rng.choice(genes) for _ in range(rng.choice([0, 0, 1, 1, 2, 3, 4]))]
+    if rng.random() < 0.3:        # a group that is not a parent of the tree (e.g. a dropped level)
+        table['gone/x'] = [rng.choice(genes)]
+    return table
+
+
+def _gen_validate(rng, size):
+    n_levels = rng.choice([1, 2, 2, 3, 3, 4])
+    tree = make_tree(random_shape(rng, n_levels))
+    genes = GENES[:rng.randint(2, len(GENES))]
+    query = [g for g in genes if rng.random() < 0.6] + (['q_only'] if rng.random() < 0.5 else [])
+    rng.shuffle(query)
+    return dict(marker_lookup=random_table(rng, tree, genes + ['ref_only']), query_gene_names=query,
+                taxonomy_tree=tree, log=None, min_markers=rng.choice([1, 1, 2, 2, 3, 5, 0, -1]))
+
+
+def _enum_validate(size):
+    """small-scope exhaustive: every tree shape with <= 3 levels and <= 2 nodes per parent level,
+    <= 3 genes, every assignment of a list in {absent, [], [g0], [g1], [g0, g1], [g2]} to at most 4
+    groups (more groups: sampled by the random generator), every subset of the genes as the
+    query, min_markers in {1, 2}"""
+    import itertools
+    shapes = [[[0]], [[0, 0]], [[0], [0, 0]], [[0, 0], [0, 0, 1]], [[0, 0], [0, 1, 1]],
+              [[0], [0, 0], [0, 0, 1]], [[0, 0], [0, 1], [0, 0, 1, 1]], [[0], [0, 0], [0, 1, 1]]]
+    lists = [None, [], ['g0'], ['g1'], ['g0', 'g1'], ['g2']]
+    genes = ['g0', 'g1', 'g2']
+    for shape in shapes:
+        tree = make_tree(shape)
+        keys = ['None' if p is None else f'{p[0]}/{p[1]}' for p in tree.all_parents]
+        consulted = [k for k, p in zip(keys, tree.all_parents)
+                     if len(tree.children(None if p is None else p[0], None if p is None else p[1])) > 1]
+        if len(consulted) > 4:
+            consulted = consulted[:4]
+        for choice in itertools.product(lists, repeat=len(consulted)):
+            table = {k: list(v) for k, v in zip(consulted, choice) if v is not None}
+            for r in range(len(genes) + 1):
+                for q in itertools.combinations(genes, r):
+                    for mm in (1, 2):
+                        yield dict(marker_lookup=dict(table), query_gene_names=list(q),
+                                   taxonomy_tree=tree, log=None, min_markers=mm)
 
 
 # ---- vocabulary of the validate_marker_lookup clauses -------------------------------------------
@@ -42,13 +128,13 @@ def root_bad(ML0, Q):
 
 def no_usable(p, ML0, Q):
     """parent p ends with no usable gene: neither its own list, nor the list of any ancestor, nor
-    the root's list has a gene of the query (with min_markers >= 1 the fallback only stops early
+    the root's list has a gene of the query (the effective minimum is >= 1, so the fallback only stops early
     when it has found one)"""
     akey = f"grp(L, {anc(p)}[L])"
     return (f"(({key(p)} not in {ML0} or ncommon({ML0}[{key(p)}], {Q}) == 0) "
-            f"and all(implies(L in {anc(p)} and {akey} in {ML0}, ncommon({ML0}[{akey}], {Q}) == 0) "
-            f"for L in taxonomy_tree.hierarchy) "
-            f"and implies('None' in {ML0}, ncommon({ML0}['None'], {Q}) == 0))")
+            f"and all(ncommon({ML0}[{akey}], {Q}) == 0 "
+            f"for L in taxonomy_tree.hierarchy if L in {anc(p)} and {akey} in {ML0}) "
+            f"and ('None' not in {ML0} or ncommon({ML0}['None'], {Q}) == 0))")
 
 
 def bad(p, ML0, Q):
@@ -56,21 +142,73 @@ def bad(p, ML0, Q):
             f"({p} is not None and {multi(p)} and {no_usable(p, ML0, Q)}))")
 
 
-def ensures_validate(ML0, Q, R):
-    """clauses over the input table ML0, the query gene list Q and the returned table R"""
+def fallback(p, ML0, QS, R, own, at=None, mm='min_markers'):
+    """the fallback rule (DESIGN A.3) for a consulted parent p whose own markers `own` (a set)
+    do not reach the minimum: ML0 = input table, QS = set of query genes, R = the returned list.
+    pool(i) = own + lists of the table-listed ancestors at level index >= i (nearest first)."""
+    def pool(i):
+        return f"pool(taxonomy_tree, {ML0}, {p}[0], {p}[1], {own}, {i})"
+
+    def ncard(x):
+        return f"len({QS}.intersection({x}))"
+    lp = f"lidx(taxonomy_tree, {p}[0])"
+    patched = (f"(any(L in {anc(p)} and grp(L, {anc(p)}[L]) in {ML0} for L in taxonomy_tree.hierarchy) "
+               f"or 'None' in {ML0})")
+
+    def body(i, i2='i2'):
+        root_used = f"({ncard(pool(i))} < {mm} and 'None' in {ML0})"
+        in_final = f"(g in {pool(i)} or ({root_used} and g in {ML0}['None']))"
+        return (
+            # i = the level index at which the search stopped: the first one (from the parent
+            # upwards) at which the pool reaches the minimum, or the top of the tree
+            f"(({i}) == 0 or {ncard(pool(i))} >= {mm}) and "
+            f"all({ncard(pool(i2))} < {mm} for {i2} in range(({i}) + 1, {lp} + 1)) and "
+            # the list holds exactly the query genes of that pool (plus the root's if still short)
+            f"all(g in {QS} and {in_final} for g in {R}) and "
+            f"all(implies({in_final}, g in {R}) for g in {QS})")
+    if at is not None:
+        return patched, f"(0 <= ({at}) <= {lp} and {body(at)})"
+    stop = f"any({body('i')} for i in range(0, {lp} + 1))"
+    return patched, stop
+
+
+def ensures_validate(ML0, Q, R, mm):
+    """clauses over the input table ML0, the query gene list Q and the returned table R
+    (quantifier filters `for .. if ..` keep the clauses executable on the real objects)"""
     consulted = f"(p is not None and {multi('p')})"      # the parents whose list may be patched
-    enough = f"({key('p')} in {ML0} and ncommon({ML0}[{key('p')}], {Q}) >= min_markers)"
+    enough = f"({key('p')} in {ML0} and ncommon({ML0}[{key('p')}], {Q}) >= {mm})"
     return [
         # the input table is not modified; every group of the input is still there
         f"all(k in {R} for k in {ML0})",
         # groups that are not consulted (not a parent of this tree, single-child parents, the
         # root) are returned as they are, and nothing else is added
-        f"all(implies(all(implies({consulted}, k != {key('p')}) for p in {AP}), "
-        f"k in {ML0} and mc_same({R}[k], {ML0}[k])) for k in {R})",
+        f"all(k in {ML0} and mc_same({R}[k], {ML0}[k]) for k in {R} "
+        f"if all(k != {key('p')} for p in {AP} if {consulted}))",
         # every parent with more than one child has a group ...
-        f"all(implies({consulted}, {key('p')} in {R}) for p in {AP})",
+        f"all({key('p')} in {R} for p in {AP} if {consulted})",
         # ... which is the listed one, untouched, when enough of its markers are in the query
-        f"all(implies({consulted} and {enough}, mc_same({R}[{key('p')}], {ML0}[{key('p')}])) for p in {AP})",
+        f"all(mc_same({R}[{key('p')}], {ML0}[{key('p')}]) for p in {AP} if {consulted} and {enough})",
+    ] + fallback_clauses('p', f'for p in {AP}', consulted, ML0, Q, f'set({Q})', R, mm) + [
+        # on a normal return every parent at which a choice is made ends with a usable gene
+        f"all(ncommon({R}[{key('p')}], {Q}) >= 1 for p in {AP} if {consulted})",
+        f"implies({ROOT_MULTI}, 'None' in {R} and ncommon({R}['None'], {Q}) >= 1)",
+    ]
+
+
+def fallback_clauses(p, binder, consulted, ML0, Q, QS, R, mm='min_markers'):
+    not_enough = f"not ({key(p)} in {ML0} and ncommon({ML0}[{key(p)}], {Q}) >= {mm})"
+    own = f"(set({ML0}[{key(p)}]) if {key(p)} in {ML0} else set())"
+    patched = (f"(any(L in {anc(p)} and grp(L, {anc(p)}[L]) in {ML0} for L in taxonomy_tree.hierarchy) "
+               f"or 'None' in {ML0})")
+    return [
+        # ... otherwise: own + ancestors nearest first + finally the root, restricted to the query,
+        # stopping as soon as the minimum is reached (sorted, duplicate free): fallback_ok is
+        # FALLBACK_DEF in pyvc/ext/marker_cache.py
+        f"all(fallback_ok(taxonomy_tree, {ML0}, {QS}, {mm}, {p}[0], {p}[1], {own}, {R}[{key(p)}]) "
+        f"{binder} if {consulted} and {not_enough} and {patched})",
+        # ... or left as it is when there is nothing to add (no ancestor and no root in the table)
+        f"all((mc_same({R}[{key(p)}], {ML0}[{key(p)}]) if {key(p)} in {ML0} else len({R}[{key(p)}]) == 0) "
+        f"{binder} if {consulted} and {not_enough} and not {patched})",
     ]
 
 
@@ -81,10 +219,13 @@ contract(
                 taxonomy_tree='MCTree', log='Opt[MCLog]', min_markers='Int'),
     returns='Dict[Name,List[Name]]',
     locals=dict(patched_with='List[Name]'),
-    requires=VALID_TREE + ["min_markers >= 1"],
+    native=dict(gen=_gen_validate, weight=2),
+    assumptions=[A_GRP],
+    requires=VALID_TREE,
     raises={'RuntimeError': ('iff', "any(" + bad('p', 'marker_lookup', 'query_gene_names')
                              + f" for p in {AP})")},
-    ensures=ensures_validate("marker_lookup", "query_gene_names", "result"),
+    # the effective minimum is max(1, min_markers): at least one usable marker is always required
+    ensures=ensures_validate("marker_lookup", "query_gene_names", "result", "max(1, min_markers)"),
     loops={
         0: [
             "all(k in marker_lookup for k in old(marker_lookup))",
@@ -104,6 +245,16 @@ contract(
             f"and ncommon(old(marker_lookup)[{key('all_parents[j]')}], old(query_gene_names)) >= min_markers, "
             f"mc_same(marker_lookup[{key('all_parents[j]')}], old(marker_lookup)[{key('all_parents[j]')}])) "
             "for j in range(_i))",
+            ] + fallback_clauses('all_parents[j]', 'for j in range(_i)',
+                                 f"(all_parents[j] is not None and {multi('all_parents[j]')})",
+                                 'old(marker_lookup)', 'old(query_gene_names)', 'query_gene_names',
+                                 'marker_lookup') + [
+            # as long as no error is recorded, every consulted parent visited has a usable gene
+            f"all(implies(len(error_msg) == 0, ncommon(marker_lookup[{key('all_parents[j]')}], old(query_gene_names)) >= 1) "
+            f"for j in range(_i) if all_parents[j] is not None and {multi('all_parents[j]')})",
+            f"all(implies(len(error_msg) == 0 and {ROOT_MULTI}, 'None' in old(marker_lookup) and "
+            "ncommon(old(marker_lookup)['None'], old(query_gene_names)) >= 1) "
+            "for j in range(_i) if all_parents[j] is None)",
             # an error message has been recorded  <=>  a parent visited so far is bad
             "iff(len(error_msg) > 0, any(" + bad('all_parents[j]', 'old(marker_lookup)', 'old(query_gene_names)')
             + " for j in range(_i)))",
@@ -118,6 +269,10 @@ contract(
             "iff(len(patched_with) > 0, any(reverse_hier[j] in ancestors and "
             "grp(reverse_hier[j], ancestors[reverse_hier[j]]) in marker_lookup for j in range(_i)))",
             "implies(len(patched_with) == 0, mc_same(new_markers, markers))",
+            # new_markers is the pool down to the next level to visit; no earlier pool was enough
+            "mc_same(new_markers, pool(taxonomy_tree, old(marker_lookup), parent[0], parent[1], markers, len(reverse_hier) - _i))",
+            "all(len(query_gene_names.intersection(pool(taxonomy_tree, old(marker_lookup), parent[0], parent[1], markers, i2))) < min_markers "
+            "for i2 in range(len(reverse_hier) - _i, lidx(taxonomy_tree, parent[0]) + 1))",
         ],
     },
     inline_asserts={
@@ -133,20 +288,63 @@ contract(
             "iff('None' in marker_lookup, 'None' in old(marker_lookup)) and "
             "implies('None' in marker_lookup, mc_same(marker_lookup['None'], old(marker_lookup)['None']))",
         ],
+        # the loop-1 invariant for the next iteration, before the early exit is decided
+        "patched_with.append(ancestor_str)": [
+            "iff(len(query_gene_names.intersection(new_markers)) == 0, "
+            "len(query_gene_names.intersection(markers)) == 0 and "
+            "all(implies(reverse_hier[j] in ancestors and grp(reverse_hier[j], ancestors[reverse_hier[j]]) in marker_lookup, "
+            "ncommon(marker_lookup[grp(reverse_hier[j], ancestors[reverse_hier[j]])], old(query_gene_names)) == 0) "
+            "for j in range(_i1 + 1)))",
+            "mc_same(new_markers, pool(taxonomy_tree, old(marker_lookup), parent[0], parent[1], markers, len(reverse_hier) - 1 - _i1))",
+        ],
+        # where the search over the ancestors stopped
+        "for ancestor_level in reverse_hier:": [
+            "ghost istar = ((len(reverse_hier) - _i1 - 1) if _i1 < len(reverse_hier) else 0)",
+            "0 <= istar <= lidx(taxonomy_tree, parent[0])",
+            "mc_same(new_markers, pool(taxonomy_tree, old(marker_lookup), parent[0], parent[1], markers, istar))",
+            "istar == 0 or len(query_gene_names.intersection(pool(taxonomy_tree, old(marker_lookup), parent[0], parent[1], markers, istar))) >= min_markers",
+            "all(len(query_gene_names.intersection(pool(taxonomy_tree, old(marker_lookup), parent[0], parent[1], markers, i2))) < min_markers for i2 in range(istar + 1, lidx(taxonomy_tree, parent[0]) + 1))",
+            "iff(len(patched_with) > 0, any(L in ancestors and grp(L, ancestors[L]) in old(marker_lookup) "
+            "for L in taxonomy_tree.hierarchy))",
+        ],
         # after the ancestors and, if still needed, the root have been added
         "if len(query_gene_names.intersection(new_markers)) < min_markers:": [
+            "all(g in pool(taxonomy_tree, old(marker_lookup), parent[0], parent[1], markers, istar) or ((len(query_gene_names.intersection(pool(taxonomy_tree, old(marker_lookup), parent[0], parent[1], markers, istar))) < min_markers and 'None' in old(marker_lookup)) and g in old(marker_lookup)['None']) for g in new_markers)",
+            "all(g in new_markers for g in pool(taxonomy_tree, old(marker_lookup), parent[0], parent[1], markers, istar))",
+            "implies((len(query_gene_names.intersection(pool(taxonomy_tree, old(marker_lookup), parent[0], parent[1], markers, istar))) < min_markers and 'None' in old(marker_lookup)), all(g in new_markers for g in old(marker_lookup)['None']))",
+            "iff(len(patched_with) > 0, any(L in ancestors and grp(L, ancestors[L]) in old(marker_lookup) "
+            "for L in taxonomy_tree.hierarchy) or 'None' in old(marker_lookup))",
             "iff(len(query_gene_names.intersection(new_markers)) == 0, "
             + no_usable('parent', 'old(marker_lookup)', 'old(query_gene_names)') + ")",
-            "ghost pool = new_markers",
+            "ghost final_pool = new_markers",
+        ],
+        "if parent_str in marker_lookup:": [
+            "implies(parent is not None, parent_str == " + key('parent') + ")",
+            "mc_same(markers, (set(old(marker_lookup)[parent_str]) if parent_str in old(marker_lookup) else set()))",
         ],
         "if len(patched_with) > 0:": [
+            "implies(len(patched_with) > 0, " + fallback('parent', 'old(marker_lookup)', 'query_gene_names',
+                                                       'marker_lookup[parent_str]',
+                                                       '(set(old(marker_lookup)[' + key('parent') + ']) if '
+                                                       + key('parent') + ' in old(marker_lookup) else set())',
+                                                       at='istar')[1] + ")",
+            "implies(len(patched_with) > 0, fallback_ok(taxonomy_tree, old(marker_lookup), query_gene_names, "
+            "min_markers, parent[0], parent[1], (set(old(marker_lookup)[" + key('parent') + "]) if "
+            + key('parent') + " in old(marker_lookup) else set()), marker_lookup[parent_str]))",
+            "implies(len(patched_with) > 0, sorted_strict(marker_lookup[parent_str]) and "
+            "all(g in query_gene_names and g in final_pool for g in marker_lookup[parent_str]) and "
+            "all(implies(g in final_pool, g in marker_lookup[parent_str]) for g in query_gene_names))",
             "iff(len(query_gene_names.intersection(set(marker_lookup[parent_str]))) == 0, "
-            "len(query_gene_names.intersection(pool)) == 0)",
+            "len(query_gene_names.intersection(final_pool)) == 0)",
         ],
         "all_parents.reverse()": [
             "len(all_parents) == len(taxonomy_tree.all_parents)",
             "all(taxonomy_tree.all_parents[i] == all_parents[len(all_parents) - 1 - i] "
             "for i in range(len(all_parents)))",
+            "all(all_parents[j] == taxonomy_tree.all_parents[len(all_parents) - 1 - j] "
+            "for j in range(len(all_parents)))",
+            "all(is_node(taxonomy_tree, all_parents[j][0], all_parents[j][1]) "
+            "for j in range(len(all_parents)) if all_parents[j] is not None)",
         ],
         "reverse_hier.reverse()": [
             "len(reverse_hier) == len(taxonomy_tree.hierarchy)",
@@ -162,5 +360,238 @@ contract(
             "all(implies(all_parents[j] is not None, parent != all_parents[j]) for j in range(_i0))",
             f"all(implies(all_parents[j] is not None, parent_str != {key('all_parents[j]')}) for j in range(_i0))",
         ],
+    },
+)
+
+
+# =====================================================================================================
+# write_query_markers_to_h5  (C08.c, C04.g, C07.c): per group, `reference` and `query` index the same
+# gene NAMES, co-sorted by reference index.  Because the reference indices of distinct genes are
+# distinct, the strictly increasing array with the element set {ref index of g | g in list} is
+# unique: the arrays written depend on the SET of genes only, not on the order in which the list
+# (built from a set by the caller) enumerates them, nor on the column order of the query.
+# h5py is abstracted: ghost dictionaries written_ref / written_query record what
+# `create_group(k).create_dataset('reference' | 'query', data=...)` is given (ext: MCH5File).
+# =====================================================================================================
+def _post_group(k, ML='marker_lookup', R='reference_gene_names', Qn='query_gene_names'):
+    """group_ok = GROUP_OK_DEF in pyvc/ext/marker_cache.py: same length as the list, valid indices
+    paired by gene name, exactly the listed genes, strictly increasing reference indices"""
+    return [
+        f"{k} in written_ref and {k} in written_query",
+        f"group_ok({ML}[{k}], {R}, {Qn}, written_ref[{k}], written_query[{k}])",
+    ]
+
+
+def _N2I(d, names):
+    return [
+        f"all({names}[i] in {d} and {d}[{names}[i]] == i for i in range(len({names})))",
+        f"all(0 <= {d}[g] < len({names}) and {names}[{d}[g]] == g for g in {d})",
+    ]
+
+
+def _post_arrays(ML='marker_lookup', R='reference_gene_names', Qn='query_gene_names'):
+    lst = f"{ML}[parent_grp]"
+    n = f"len({lst})"
+    return [
+        f"len(these_reference) == {n} and len(these_query) == {n}",
+        f"all(0 <= these_reference[i] < len({R}) and 0 <= these_query[i] < len({Qn}) "
+        f"and {R}[these_reference[i]] == {Qn}[these_query[i]] for i in range({n}))",
+        f"all({R}[these_reference[i]] in {lst} for i in range({n}))",
+        f"all(any({R}[these_reference[i]] == g for i in range({n})) for g in {lst})",
+        "sorted_strict(these_reference)",
+    ]
+
+
+_WR, _WQ, _WT = {}, {}, {}
+
+
+def _call_write(marker_lookup, reference_gene_names, query_gene_names, output_cache_path):
+    """native: run the real function, read the file back into the ghost dictionaries"""
+    import h5py
+    from cell_type_mapper.type_assignment.marker_cache_v2 import write_query_markers_to_h5
+    _WR.clear(), _WQ.clear(), _WT.clear()
+    write_query_markers_to_h5(marker_lookup=marker_lookup, reference_gene_names=reference_gene_names,
+                              query_gene_names=query_gene_names, output_cache_path=output_cache_path)
+    with h5py.File(output_cache_path, 'r') as f:
+        for k in marker_lookup:
+            _WR[k] = f[k]['reference'][()]
+            _WQ[k] = f[k]['query'][()]
+        for k in ('all_query_markers', 'all_reference_markers'):
+            _WT[k] = f[k][()]
+
+
+def _gen_write(rng, size):
+    import os
+    import tempfile
+    ref = ['r_only'] + GENES[:rng.randint(1, len(GENES))]
+    rng.shuffle(ref)
+    usable = [g for g in ref if g != 'r_only' and rng.random() < 0.8]
+    query = list(usable) + (['q_only'] if rng.random() < 0.5 else [])
+    rng.shuffle(query)
+    keys = ['None', 'class/A', 'class/B', 'subclass/x'][:rng.randint(1, 4)]
+    table = {}
+    for k in keys:
+        s = [g for g in usable if rng.random() < 0.5]
+        rng.shuffle(s)                   # the caller builds the list from a set: arbitrary order
+        table[k] = s
+    d = tempfile.gettempdir()
+    return dict(marker_lookup=table, reference_gene_names=ref, query_gene_names=query,
+                output_cache_path=os.path.join(d, f'mc_native_write_{os.getpid()}_{rng.randrange(8)}.h5'))
+
+
+contract(
+    M + 'write_query_markers_to_h5',
+    properties=['C08', 'C04', 'C07'],
+    mode='slice',
+    tracked=['marker_lookup', 'reference_gene_names', 'query_gene_names', 'query_name_to_int',
+             'reference_name_to_int', 'these_reference', 'these_query', 'sorted_dex', 'out_grp',
+             'cache_file', 'parent_grp', 'gene', 'written_ref', 'written_query',
+             'query_genes', 'reference_genes'],
+    unexpected_exceptions='allowed',
+    ghost=dict(vars=dict(written_ref='Dict[Name,Arr[Int]]', written_query='Dict[Name,Arr[Int]]'),
+               mutators=('create_dataset',)),
+    native=dict(gen=_gen_write, call=_call_write, env=dict(written_ref=_WR, written_query=_WQ)),
+    params=dict(marker_lookup='Dict[Name,List[Name]]', reference_gene_names='List[Name]',
+                query_gene_names='List[Name]', output_cache_path='Opaque'),
+    locals=dict(these_reference='List[Int]', these_query='List[Int]', query_genes='Set[Int]',
+                reference_genes='Set[Int]'),
+    requires=[
+        # what create_marker_cache_from_specified_markers guarantees: gene names are unique in both
+        # data sets, every listed gene is in both, a group lists a gene once (it comes from a set)
+        "dupfree(reference_gene_names)", "dupfree(query_gene_names)",
+        "all(dupfree(marker_lookup[k]) for k in marker_lookup)",
+        "all(g in reference_gene_names and g in query_gene_names for k in marker_lookup for g in marker_lookup[k])",
+    ],
+    ensures=[f"all({c} for k in marker_lookup)" for c in _post_group('k')],
+    loops={
+        # 2: groups already written satisfy the post-condition (dict order is arbitrary)
+        2: [f"all({c} for k in _seen)" for c in _post_group('k')],
+        # 3: position a of the two lists holds the reference / query column of the a-th gene
+        3: ["len(these_reference) == _i and len(these_query) == _i",
+            "all(these_reference[a] == reference_name_to_int[_it[a]] and "
+            "these_query[a] == query_name_to_int[_it[a]] for a in range(_i))"],
+    },
+    inline_asserts={
+        # name -> column index: total on the gene list, inverse of indexing (names are unique)
+        "query_name_to_int = ": _N2I('query_name_to_int', 'query_gene_names'),
+        "reference_name_to_int = ": _N2I('reference_name_to_int', 'reference_gene_names'),
+        # distinct genes have distinct reference columns
+        "these_reference = np.array(these_reference)": [
+            "ghost pre_ref = these_reference",
+            "all(pre_ref[a] != pre_ref[b] for a in range(len(pre_ref)) for b in range(len(pre_ref)) if a != b)",
+        ],
+        "these_reference = these_reference[sorted_dex]": [
+            "len(these_reference) == len(pre_ref)",
+            "all(these_reference[i] == pre_ref[sorted_dex[i]] for i in range(len(pre_ref)))",
+            "all(these_reference[i] <= these_reference[j] for i in range(len(pre_ref)) for j in range(len(pre_ref)) if i < j)",
+            "all(these_reference[i] != these_reference[j] for i in range(len(pre_ref)) for j in range(len(pre_ref)) if i < j)",
+            "sorted_strict(these_reference)",
+        ],
+        # after the co-sort: the two arrays of the current group
+        "if len(these_reference) > 0:": _post_arrays() + [
+            "group_ok(marker_lookup[parent_grp], reference_gene_names, query_gene_names, "
+            "these_reference, these_query)"],
+    },
+)
+
+
+# =====================================================================================================
+# create_marker_cache_from_specified_markers  (C08.b, C04.g, C17.c; slice around the error logic)
+# VL (ghost) = the table returned by validate_marker_lookup.  With a tree given, the "No markers at
+# parent node" error is unreachable (validate_marker_lookup has already guaranteed a usable gene at
+# every consulted parent; other groups are exempt since the S-11 fix): the proof shows it by not
+# listing that condition in `raises`.
+# =====================================================================================================
+_VL = {}
+NOT_META = "k != 'metadata' and k != 'log'"
+
+
+def _call_create(marker_lookup, reference_gene_names, query_gene_names, output_cache_path,
+                 taxonomy_tree, log, min_markers):
+    """native: run the real function, read the file back; VL is recomputed with the (separately
+    verified) validate_marker_lookup"""
+    import h5py
+    import warnings
+    from cell_type_mapper.type_assignment import marker_cache_v2 as m
+    _WR.clear(), _WQ.clear(), _VL.clear()
+    with warnings.catch_warnings():
+        warnings.simplefilter('ignore')
+        m.create_marker_cache_from_specified_markers(
+            marker_lookup=marker_lookup, reference_gene_names=reference_gene_names,
+            query_gene_names=query_gene_names, output_cache_path=output_cache_path,
+            taxonomy_tree=taxonomy_tree, log=log, min_markers=min_markers)
+        _VL.update(m.validate_marker_lookup(marker_lookup, query_gene_names, taxonomy_tree,
+                                            min_markers=min_markers))
+    with h5py.File(output_cache_path, 'r') as f:
+        for k in _VL:
+            if k in ('metadata', 'log'):
+                continue
+            _WR[k] = f[k]['reference'][()]
+            _WQ[k] = f[k]['query'][()]
+
+
+def _gen_create(rng, size):
+    import os
+    import tempfile
+    g = _gen_validate(rng, size)
+    genes = sorted({x for v in g['marker_lookup'].values() for x in v} | set(g['query_gene_names']))
+    ref = [x for x in genes if x != 'q_only' and (x != 'ref_only' or True)]
+    if rng.random() < 0.25 and ref:          # a marker unknown to the reference
+        ref.remove(rng.choice(ref))
+    ref.append('r_extra')
+    rng.shuffle(ref)
+    if rng.random() < 0.3:
+        g['marker_lookup']['metadata'] = ['whatever']
+    out = dict(marker_lookup=g['marker_lookup'], reference_gene_names=ref,
+               query_gene_names=g['query_gene_names'],
+               output_cache_path=os.path.join(tempfile.gettempdir(),
+                                              f'mc_native_create_{os.getpid()}_{rng.randrange(8)}.h5'),
+               taxonomy_tree=g['taxonomy_tree'], log=None, min_markers=g['min_markers'])
+    return out
+
+
+_VALIDATE_RAISES = "any(" + bad('p', 'marker_lookup', 'query_gene_names') + f" for p in {AP})"
+_UNKNOWN_ANY = ("any(g not in reference_gene_names for k in marker_lookup if " + NOT_META
+                + " for g in marker_lookup[k])")
+# a group that validate_marker_lookup returns untouched: not the key of a consulted parent
+_UNKNOWN_UNTOUCHED = (
+    "any(g not in reference_gene_names for k in marker_lookup if " + NOT_META + " and "
+    f"all(k != {key('p')} for p in {AP} if p is not None and {multi('p')}) for g in marker_lookup[k])")
+
+contract(
+    M + 'create_marker_cache_from_specified_markers',
+    properties=['C08', 'C04', 'C17'],
+    mode='slice',
+    tracked=['marker_lookup', 'reference_gene_names', 'query_gene_names', 'taxonomy_tree', 'log',
+             'min_markers', 'query_gene_set', 'reference_gene_set', 'final_marker_lookup',
+             'missing_reference_markers', 'parent_node', 'marker_set', 'these_markers',
+             'consulted_parents', 'is_consulted', 'parent', 'parent_str', 'children',
+             'written_ref', 'written_query'],
+    ghost=dict(vars=dict(written_ref='Dict[Name,Arr[Int]]', written_query='Dict[Name,Arr[Int]]')),
+    native=dict(gen=_gen_create, call=_call_create, env=dict(written_ref=_WR, written_query=_WQ, VL=_VL)),
+    assumptions=[A_GRP, "the taxonomy_tree=None mode (no validation) is not covered: _run_mapping "
+                        "always passes the tree"],
+    params=dict(marker_lookup='Dict[Name,List[Name]]', reference_gene_names='List[Name]',
+                query_gene_names='List[Name]', output_cache_path='Opaque', taxonomy_tree='MCTree',
+                log='Opt[MCLog]', min_markers='Int'),
+    locals=dict(consulted_parents='Set[Name]', final_marker_lookup='Dict[Name,List[Name]]',
+                missing_reference_markers='Set[Name]', missing_query_markers='Set[Name]'),
+    requires=VALID_TREE + ["dupfree(reference_gene_names)", "dupfree(query_gene_names)"],
+    raises={'RuntimeError': _VALIDATE_RAISES + " or " + _UNKNOWN_ANY},
+    must_raise=[_VALIDATE_RAISES, _UNKNOWN_UNTOUCHED],
+    ensures=(
+        # VL is the validated table (the clauses of validate_marker_lookup, end to end) ...
+        ensures_validate("marker_lookup", "query_gene_names", "VL", "max(1, min_markers)") + [
+            # ... every group of it (bar 'metadata' / 'log') is written: exactly its genes that are
+            # in the query, paired by name, co-sorted by reference index
+            f"all(k in written_ref and k in written_query for k in VL if {NOT_META})",
+            f"all(stored_ok(VL[k], reference_gene_names, query_gene_names, written_ref[k], written_query[k]) "
+            f"for k in VL if {NOT_META})",
+            # ... and every marker kept is known to the reference
+            f"all(g in reference_gene_names for k in VL if {NOT_META} for g in VL[k])",
+        ]),
+    loops={},
+    inline_asserts={
+        "marker_lookup = validate_marker_lookup(": ["ghost VL = marker_lookup"],
     },
 )
